@@ -1086,11 +1086,28 @@ func (w *xlWorld) translateFunc(repo string, p *xlPkg, f *xlFunc, fd *ast.FuncDe
 			x.goParamNames, x.leanParamNames = []string{"$0", r.Name()}, []string{"$0", params[0].name}
 		}
 	}
+	paramVars := []*types.Var{}
 	for i := 0; i < sig.Params().Len(); i++ {
-		if err := addParam(sig.Params().At(i)); err != nil {
+		paramVars = append(paramVars, sig.Params().At(i))
+	}
+	resultTuple := sig.Results()
+	bodyList := fd.Body.List
+	if f.Curried {
+		// `func F(a) func(b) T { return func(b) T { body } }` ↦ F a b := ⟦body⟧
+		lit, lsig, err := x.curriedLit(fd)
+		if err != nil {
 			return "", err
 		}
-		x.goParamNames = append(x.goParamNames, sig.Params().At(i).Name())
+		for i := 0; i < lsig.Params().Len(); i++ {
+			paramVars = append(paramVars, lsig.Params().At(i))
+		}
+		resultTuple, bodyList = lsig.Results(), lit.Body.List
+	}
+	for _, pv := range paramVars {
+		if err := addParam(pv); err != nil {
+			return "", err
+		}
+		x.goParamNames = append(x.goParamNames, pv.Name())
 		x.leanParamNames = append(x.leanParamNames, params[len(params)-1].name)
 	}
 	if len(null) > 0 {
@@ -1102,11 +1119,11 @@ func (w *xlWorld) translateFunc(repo string, p *xlPkg, f *xlFunc, fd *ast.FuncDe
 	if sig.Variadic() && !domMode {
 		return "", fmt.Errorf("variadic function")
 	}
-	for i := 0; i < sig.Results().Len(); i++ {
-		if sig.Results().At(i).Name() != "" {
+	for i := 0; i < resultTuple.Len(); i++ {
+		if resultTuple.At(i).Name() != "" {
 			return "", fmt.Errorf("%s: unsupported: named results", w.fset.Position(fd.Pos()))
 		}
-		x.results = append(x.results, sig.Results().At(i).Type())
+		x.results = append(x.results, resultTuple.At(i).Type())
 	}
 	if x.recvAcc {
 		x.results = nil // `return l` hands back the receiver = the threaded value
@@ -1152,7 +1169,7 @@ func (w *xlWorld) translateFunc(repo string, p *xlPkg, f *xlFunc, fd *ast.FuncDe
 			return nil, fmt.Errorf("%s: unsupported: control reaches the end of the function without return", w.fset.Position(fd.Pos()))
 		},
 	}
-	body, err := x.block(fd.Body.List, k)
+	body, err := x.block(bodyList, k)
 	if err != nil {
 		return "", err
 	}
